@@ -245,5 +245,77 @@ pub open spec fn on_col(c: Constraint, s: ColumnId) -> bool {
 //@ end-fn
 //@ end-impl
 
+// ---------------- maintenance of the offsets abstraction (what the requires `ok()` above rests on) ----------------
+/// never returns: models `panic!` / failed `assert!` (partial correctness)
+#[verifier::external_body]
+pub fn vc_panic() -> (r: bool)
+    ensures false
+{ unimplemented!() }
+
+//@ item core-relations/src/table/mod.rs struct SortChecker derive Copy,Clone
+
+//@ impl core-relations/src/table/mod.rs impl OrderingChecker for SortChecker => impl SortChecker
+//@ fn check_local
+//@ rewrite R-ASSERT
+//@ at sig
+        requires old(self).col.ix() < row@.len(),
+        ensures
+            final(self).col == old(self).col,
+            final(self).baseline == old(self).baseline,
+            // every row of one batch carries the same sort value, and it is not below the table's largest one
+            final(self).current is Some && final(self).current->Some_0.ix() == row@[old(self).col.ix() as int].ix(),
+            old(self).current is Some ==> old(self).current->Some_0.ix() == row@[old(self).col.ix() as int].ix(),
+            old(self).current is None && old(self).baseline is Some ==> row@[old(self).col.ix() as int].ix() >= old(self).baseline->Some_0.ix(),
+//@ end-fn
+//@ fn update_offsets
+//@ at sig
+        requires
+            // `start` = number of rows before the batch was appended
+            offsets_ok(old(offsets)@, start.ix()),
+            // what check_local established against the baseline (= the last sort value when the batch started)
+            self.current is Some && old(offsets)@.len() > 0 ==> self.current->Some_0.ix() >= old(offsets)@.last().0.ix(),
+        ensures
+            self.current is None ==> final(offsets)@ == old(offsets)@,
+            // after a non-empty batch of rows start..n, all with sort value `current`:
+            self.current is Some ==> forall|n: nat| n > start.ix() ==> #[trigger] offsets_ok(final(offsets)@, n),
+            self.current is Some ==> forall|r: int| r >= start.ix() ==> #[trigger] sort_val(final(offsets)@, r) == self.current->Some_0.ix(),
+            self.current is Some ==> forall|r: int| 0 <= r < start.ix() ==> #[trigger] sort_val(final(offsets)@, r) == sort_val(old(offsets)@, r),
+//@ at end
+        proof {
+            let o0 = old(offsets)@;
+            let o1 = offsets@;
+            if self.current is Some {
+                let c = self.current->Some_0;
+                if o1 != o0 {
+                    assert(o1 == o0.push((c, start)));
+                    assert(o1.drop_last() == o0);
+                    assert forall|n: nat| n > start.ix() implies #[trigger] offsets_ok(o1, n) by {
+                        assert forall|i: int, j: int| #![trigger o1[i], o1[j]] 0 <= i < j < o1.len() implies o1[i].0.ix() < o1[j].0.ix() && o1[i].1.ix() < o1[j].1.ix() by {
+                            if j < o0.len() { assert(o0[i].0.ix() < o0[j].0.ix()); } else {
+                                assert(o0[i].1.ix() < start.ix());
+                                if i < o0.len() - 1 { assert(o0[i].0.ix() < o0[o0.len() - 1].0.ix()); }
+                            }
+                        }
+                        if o0.len() == 0 { assert(start.ix() == 0); }
+                    }
+                    assert forall|r: int| r >= start.ix() implies #[trigger] sort_val(o1, r) == c.ix() by {}
+                    assert forall|r: int| 0 <= r < start.ix() implies #[trigger] sort_val(o1, r) == sort_val(o0, r) by {
+                        lemma_runs_cover(o0, start.ix(), r);
+                        assert(run_idx(o1, r) == run_idx(o0, r));
+                        assert(o1[run_idx(o0, r)] == o0[run_idx(o0, r)]);
+                    }
+                } else {
+                    assert(o0.len() > 0);
+                    assert(c.ix() == o0.last().0.ix());
+                    assert forall|n: nat| n > start.ix() implies #[trigger] offsets_ok(o1, n) by {}
+                    assert forall|r: int| r >= start.ix() implies #[trigger] sort_val(o1, r) == c.ix() by {
+                        assert(o0.last().1.ix() < start.ix());
+                    }
+                }
+            }
+        }
+//@ end-fn
+//@ end-impl
+
 } // verus!
 fn main() {}
